@@ -26,7 +26,10 @@ def render_name(tok, form, names):
     if form == "dir":
         return "Packages/f/" + s
     if form == "dirrpm":
-        return "/mnt/koji/Packages/" + s + ".rpm"
+        # ... with the epoch spelled with a leading zero (a number: the canonical form has none)
+        n, rest = s.split(":", 1)
+        name, ep = n.rsplit("-", 1)
+        return "/mnt/koji/Packages/" + name + "-0" + ep + ":" + rest + ".rpm"
     if form == "noepoch":
         n, rest = s.split(":", 1)
         return n.rsplit("-", 1)[0] + "-" + rest
